@@ -70,7 +70,7 @@ Definition verdict (c : case) : Z :=
                                      && multiset_eqb (map no_bin m) (map no_bin o)
                      | Err e, Err e' => err_eqb e e' | _, _ => false end in
           let ok2 := match ms, sites with
-                     | Ok m, Ok o => multiset_eqb (map no_bin m) (map no_bin o)
+                     | Ok m, Ok o => multiset_eqb m o && multiset_eqb (map no_bin m) (map no_bin o)
                      | Err e, Err e' => err_eqb e e' | _, _ => false end in
           if ok1 && ok2 then V_OK else V_BAD
         end
@@ -90,7 +90,7 @@ Definition verdict (c : case) : Z :=
                        | Ok m, Ok o => multiset_eqb m o && multiset_eqb (map no_bin m) (map no_bin o)
                        | Err e, Err e' => err_eqb e e' | _, _ => false end in
             let ok2 := match ms, sites with
-                       | Ok m, Ok o => multiset_eqb (map no_bin m) (map no_bin o)
+                       | Ok m, Ok o => multiset_eqb m o && multiset_eqb (map no_bin m) (map no_bin o)
                        | Err e, Err e' => err_eqb e e' | _, _ => false end in
             if ok1 && ok2 then V_OK else V_BAD
           end
